@@ -1239,6 +1239,20 @@ static void initializer2(Token **rest, Token *tok, Initializer *init) {
     return;
   }
 
+  // An array of character type may be initialized by a string literal
+  // enclosed in braces (C11 6.7.9p14): `char s[] = {"abc"};`
+  if (init->ty->kind == TY_ARRAY && is_integer(init->ty->base) &&
+      equal(tok, "{") && tok->next->kind == TK_STR) {
+    Token *end = tok->next->next;
+    if (equal(end, ","))
+      end = end->next;
+    if (equal(end, "}")) {
+      string_initializer(&tok, tok->next, init);
+      *rest = end->next;
+      return;
+    }
+  }
+
   if (init->ty->kind == TY_ARRAY) {
     if (equal(tok, "{"))
       array_initializer1(rest, tok, init);
